@@ -237,8 +237,16 @@ func TestRepeatedAndInterleaved(t *testing.T) {
 		x, rej := genInput(rt)
 		o1, _ := genInput(rt)
 		o2, _ := genInput(rt)
+		// the other activity in the process also *fails*, in as many ways as the translator can fail: in the
+		// lexer, in the middle of a function body, while types, metadata or global headers are translated, with
+		// an internal panic that ParseString turns into an error
+		others := []string{o1, o2}
+		for k := rapid.IntRange(0, 2).Draw(rt, "failingOthers"); k > 0; k-- {
+			others = append(others, rapid.SampledFrom(failingInputs).Draw(rt, "failing"))
+			hx.Hist("interleaved_with_a_failing_parse")
+		}
 		hx.Eval(1)
-		checkInput(rt, test, x, []string{o1, o2}, K)
+		checkInput(rt, test, x, others, K)
 		if rej {
 			hx.Hist("input/rejected")
 		} else {
@@ -247,6 +255,23 @@ func TestRepeatedAndInterleaved(t *testing.T) {
 		hx.NonTrivial(x)
 		hx.SampleCase(test, x)
 	})
+}
+
+// failingInputs are rejected by the parser at different depths of the translation.
+var failingInputs = []string{
+	"@g = global i32 ",
+	"@g = global bfloat 0xR0000\n",
+	"@a = global i32 1\ndefine void @f() {\n  %v = load i32, i32* @a\n  br label %nowhere\n}\n",
+	"%t = type { %u }\n@g = global %t zeroinitializer\n",
+	"define i32 @f(i32 %p) {\n  %1 = add i32 %x, 1\n  ret i32 %1\n}\n",
+	"!named = !{!0}\n!0 = !DISubrange(count: s0x5)\n",
+	"define void @f() {\nentry:\n  ret void\nentry:\n  ret void\n}\n",
+	"$c = comdat any\n@a = global i32 0, comdat($nocomdat)\n",
+	"@t = global i8* blockaddress(@f, %nb)\ndefine void @f() {\n  ret void\n}\n",
+	"define void @f() {\n  ret void\n}\nuselistorder_bb @f, %nb, { 1, 0 }\n",
+	"!0 = !{!1}\n!named = !{!0, !7}\n",
+	"%s = type { i32 }\n%s = type { i64 }\n",
+	"attributes #0 = { nounwind }\ndefine void @f() #0 {\n  %1 = alloca i32\n  %1 = alloca i32\n  ret void\n}\n",
 }
 
 func TestCorpora(t *testing.T) {
